@@ -12,6 +12,7 @@ with λ₀ = 0 and arbitrary c, a, α, β (`cog2_energy`).
 import EPV.Gen.Cog2D
 import EPV.Spec.Euler1D
 import EPV.Lemmas.Euler1D
+import EPV.Lemmas.HydroRobust
 import EPV.Tactics
 
 set_option linter.all false
@@ -27,10 +28,10 @@ theorem cog2_mass (p : Cog2.P) (r t : ℝ) (hr : 0 < r) (ht : 0 < t)
     (hc : 2 + (p.gamma - 1) * ((p.geometry - 1) + 1) ≠ 0) :
     massRes (Cog2.L1.density p) (Cog2.L1.velocity p) (p.geometry - 1) r t = 0 := by
   unfold massRes dr dt
-  rw [(Cog2.L1.density_hasDerivAt_t p r t ht).deriv, (Cog2.L1.density_hasDerivAt_r p r t hr).deriv,
-    (Cog2.L1.velocity_hasDerivAt_r p r t).deriv]
+  epv_hydro_rw_derivs [Cog2.L1.density_hasDerivAt_t p r t, Cog2.L1.density_hasDerivAt_r p r t,
+    Cog2.L1.velocity_hasDerivAt_r p r t]
   simp only [epv_deriv, epv_leaf]
-  field_simp
+  epv_hydro_field_simp
   ring
 
 theorem cog2_momentum (p : Cog2.P) (r t : ℝ) (hr : 0 < r) (ht : 0 < t)
@@ -38,12 +39,10 @@ theorem cog2_momentum (p : Cog2.P) (r t : ℝ) (hr : 0 < r) (ht : 0 < t)
     (hρ : p.rho0 ≠ 0) :
     momResT (Cog2.L1.density p) (Cog2.L1.velocity p) (Cog2.L1.temperature p) p.Gamma r t = 0 := by
   unfold momResT dr dt
-  rw [(Cog2.L1.velocity_hasDerivAt_t p r t ht.ne').deriv, (Cog2.L1.velocity_hasDerivAt_r p r t).deriv,
-    (Cog2.L1.density_hasDerivAt_r p r t hr).deriv, (Cog2.L1.temperature_hasDerivAt_r p r t).deriv]
+  epv_hydro_rw_derivs [Cog2.L1.velocity_hasDerivAt_t p r t, Cog2.L1.velocity_hasDerivAt_r p r t,
+    Cog2.L1.density_hasDerivAt_r p r t, Cog2.L1.temperature_hasDerivAt_r p r t]
   simp only [epv_deriv, epv_leaf]
-  have h1 := Real.rpow_pos_of_pos hr p.b
-  have h2 := Real.rpow_pos_of_pos ht (((-2 : ℝ) * ((p.b + (p.geometry - (1 : ℝ))) + (1 : ℝ))) / ((2 : ℝ) + ((p.gamma - (1 : ℝ)) * ((p.geometry - (1 : ℝ)) + (1 : ℝ)))))
-  field_simp
+  epv_hydro_field_simp
   ring
 
 theorem cog2_energy_hydro (p : Cog2.P) (r t : ℝ) (hr : 0 < r) (ht : 0 < t)
@@ -51,10 +50,10 @@ theorem cog2_energy_hydro (p : Cog2.P) (r t : ℝ) (hr : 0 < r) (ht : 0 < t)
     (hγ : p.gamma - 1 ≠ 0) :
     energyHydroT (Cog2.L1.velocity p) (Cog2.L1.temperature p) p.Gamma p.gamma (p.geometry - 1) r t = 0 := by
   unfold energyHydroT dr dt
-  rw [(Cog2.L1.temperature_hasDerivAt_t p r t ht.ne').deriv, (Cog2.L1.velocity_hasDerivAt_r p r t).deriv,
-    (Cog2.L1.temperature_hasDerivAt_r p r t).deriv]
+  epv_hydro_rw_derivs [Cog2.L1.temperature_hasDerivAt_t p r t, Cog2.L1.velocity_hasDerivAt_r p r t,
+    Cog2.L1.temperature_hasDerivAt_r p r t]
   simp only [epv_deriv, epv_leaf]
-  field_simp
+  epv_hydro_field_simp
   ring
 
 /-- the documented energy residual with no conduction (λ₀ = 0), any c, a, α, β -/
